@@ -155,6 +155,8 @@ struct AuxRef {
       if (g > 0) uhi = u; else ulo = u;
       q128 dl = dfwd(aux, t) * t / F;          // d log F / d log t
       q128 un = u - g / dl;
+      // every third step is a bisection once the root is bracketed (Newton alone can cycle where the log-log slope changes fast)
+      if (!isinfq(ulo) && !isinfq(uhi) && it % 3 == 2 && fabsq(g) > 1e-6Q) un = (ulo + uhi) / 2;
       if (!(un > ulo && un < uhi)) {
         if (isinfq(ulo)) un = uhi - 2 * (1 + fabsq(g)); else if (isinfq(uhi)) un = ulo + 2 * (1 + fabsq(g)); else un = (ulo + uhi) / 2;
       }
